@@ -6,6 +6,7 @@ import (
 	"fmt"
 	"sort"
 
+	gonnx "github.com/advancedclimatesystems/gonnx"
 	"verifmc/hx"
 	"verifmc/ref"
 )
@@ -95,4 +96,88 @@ func (c *modelCase) run() *hx.Violation {
 		}
 	}
 	return hx.OK("match")
+}
+
+// modelHistory: one Model, a sequence of Runs, each judged like a modelCase (call histories on one instance).
+type modelHistory struct {
+	ReplayKind string       `json:"replay_kind"`
+	Model      string       `json:"model_b64"`
+	Steps      []*modelCase `json:"steps"` // Model field of the steps is ignored
+	Desc       string       `json:"desc,omitempty"`
+}
+
+func init() {
+	replayers["model-history"] = func(raw json.RawMessage) *hx.Violation {
+		var h modelHistory
+		if err := json.Unmarshal(raw, &h); err != nil {
+			return &hx.Violation{Kind: "bad-replay", Detail: err.Error()}
+		}
+		return h.run()
+	}
+}
+
+func (h *modelHistory) run() (v *hx.Violation) {
+	mk := func(kind, detail string) *hx.Violation {
+		return &hx.Violation{Kind: kind, Detail: detail, Replay: h}
+	}
+	b, _ := base64.StdEncoding.DecodeString(h.Model)
+	m, err := loadModelSafe(b)
+	if err != nil {
+		return mk("refused", "load: "+err.Error())
+	}
+	for si, c := range h.Steps {
+		feed := map[string]*ref.T{}
+		for k, t := range c.Feed {
+			feed[k] = t.T()
+		}
+		var names []string
+		for k := range c.Expected {
+			names = append(names, k)
+		}
+		sort.Strings(names)
+		res := hx.RunModel(m, feed, names)
+		at := fmt.Sprintf("call %d of %d (%s): ", si+1, len(h.Steps), c.Desc)
+		switch {
+		case res.Panic != "":
+			return mk("panic", at+res.Panic)
+		case res.Mutated != "":
+			return mk("mutated-input", at+res.Mutated)
+		}
+		switch c.Expect {
+		case "nopanic":
+			continue
+		case "error":
+			if res.Err == nil {
+				return mk("not-refused", at+fmt.Sprintf("expected an error, Run returned %d outputs", len(res.Outs)))
+			}
+			if res.ReadErr != "" {
+				return mk("outputs-with-error", at+res.ReadErr)
+			}
+			continue
+		}
+		if res.Err != nil {
+			if c.Expect == "outputs-or-error" {
+				continue
+			}
+			return mk("refused", at+fmt.Sprintf("refused (%s): %v", res.Phase, res.Err))
+		}
+		if res.ReadErr != "" {
+			return mk("wrong-outputs", at+res.ReadErr)
+		}
+		for i, n := range names {
+			if k, d := hx.CompareT(res.Outs[i], c.Expected[n].T(), c.Cmp); k != "" {
+				return mk(k, at+fmt.Sprintf("output %q: %s", n, d))
+			}
+		}
+	}
+	return hx.OK("history-match")
+}
+
+func loadModelSafe(b []byte) (m *gonnx.Model, err error) {
+	defer func() {
+		if p := recover(); p != nil {
+			err = fmt.Errorf("panic at load: %v", p)
+		}
+	}()
+	return gonnx.NewModelFromBytes(b)
 }
